@@ -11,6 +11,8 @@ import (
 	"runtime/debug"
 	"sort"
 	"strings"
+	"sync"
+	"sync/atomic"
 	"testing"
 	"time"
 
@@ -139,7 +141,24 @@ func TestVerifGossipReplay(t *testing.T) {
 	keys := vhNewKeys(os.Getenv("VERIF_SEED"))
 	skipped := 0
 	for _, sc := range scs {
-		r := &ghRun{keys: keys, gst: node_common.NewGuardianSetState(nil), txs: map[string]string{}}
+		// the table's update channel is read by a consumer that is slow only during a burst: concurrent writers then
+		// overlap for certain if the table lets them
+		updC := make(chan *gossipv1.Heartbeat)
+		updDone := make(chan struct{})
+		var slow int32
+		go func() {
+			for {
+				select {
+				case <-updC:
+					if atomic.LoadInt32(&slow) == 1 {
+						time.Sleep(2 * time.Millisecond)
+					}
+				case <-updDone:
+					return
+				}
+			}
+		}()
+		r := &ghRun{keys: keys, gst: node_common.NewGuardianSetState(updC), txs: map[string]string{}}
 		tr.Emit(sc.ID, "Reset", nil, nil)
 		for _, st := range sc.Steps {
 			switch st.Ev {
@@ -151,6 +170,50 @@ func TestVerifGossipReplay(t *testing.T) {
 				}
 				r.gst.Set(gs)
 				tr.Emit(sc.ID, st.Ev, st.A, r.state([]interface{}{}, "", ""))
+			case "HeartbeatBurst":
+				g := vhStr(st.A, "g")
+				gs := r.gst.Get()
+				if gs == nil {
+					t.Fatalf("burst without a guardian set")
+				}
+				var wg sync.WaitGroup
+				start := make(chan struct{})
+				panicked := ""
+				var pmu sync.Mutex
+				atomic.StoreInt32(&slow, 1)
+				for _, pn := range vhList(st.A, "peers") {
+					hb, _ := proto.Marshal(&gossipv1.Heartbeat{NodeName: "burst-" + pn.(string) + strings.Repeat("n", 30)})
+					sig := keys.Sign(g, ethcrypto.Keccak256(append(append([]byte{}, ghPrefix("hb")...), hb...)))
+					env := &gossipv1.SignedHeartbeat{Heartbeat: hb, Signature: sig, GuardianAddr: keys.Addr(g).Bytes()}
+					wg.Add(1)
+					go func(from peer.ID) {
+						defer wg.Done()
+						defer func() {
+							if x := recover(); x != nil {
+								pmu.Lock()
+								panicked = fmt.Sprintf("%v\n%s", x, debug.Stack())
+								pmu.Unlock()
+							}
+						}()
+						<-start
+						processSignedHeartbeat(from, env, gs, r.gst, false)
+					}(peer.ID(pn.(string)))
+				}
+				close(start)
+				done := make(chan struct{})
+				go func() { wg.Wait(); close(done) }()
+				select {
+				case <-done:
+				case <-time.After(20 * time.Second):
+					buf := make([]byte, 1<<16)
+					buf = buf[:runtime.Stack(buf, true)]
+					tr.Emit(sc.ID, "Stall", st.A, map[string]interface{}{"stacks": string(buf)})
+					tr.Close()
+					fmt.Printf("VERIF-REPLAYED scenarios=%d lines=%d skipped=%d stalled=1\n", len(scs), tr.n, skipped)
+					os.Exit(0)
+				}
+				atomic.StoreInt32(&slow, 0)
+				tr.Emit(sc.ID, st.Ev, st.A, r.state([]interface{}{}, "", panicked))
 			case "Heartbeat", "ObsReq":
 				e := vhMap(st.A, "e")
 				kind := vhStr(e, "kind")
@@ -253,6 +316,7 @@ func TestVerifGossipReplay(t *testing.T) {
 				t.Fatalf("unknown event %q", st.Ev)
 			}
 		}
+		close(updDone)
 	}
 	fmt.Printf("VERIF-REPLAYED scenarios=%d lines=%d skipped=%d\n", len(scs), tr.n, skipped)
 }
